@@ -23,6 +23,9 @@ pub fn run_history(c: &MultiCase) -> CaseResult {
         clock::advance(Duration::from_millis(c.step_ms.max(2) as u64));
         let members_before = it.model.entries.len();
         let out = catch(|| it.step(op)).map_err(|p| Fail::new("panic", format!("op #{i} {op:?} panicked: {p} (ops {:?})", &c.ops[..=i])))??;
+        if let Some(Err(e)) = &out.io_result {
+            return Err(Fail::new("io", format!("op #{i} {op:?} returned an error although the terminal never failed: {e}")));
+        }
         if out.skipped {
             v.label("op_skipped_no_handle");
             continue;
